@@ -10,13 +10,14 @@
 From Coq Require Import List Bool Arith NArith Reals.
 From CB Require Import Base.Hex Base.Vec3 Model.C11_Topo Proofs.C11_Topo Model.C11_Geom Proofs.C11_Geom.
 From CB Require Import Gen.C11.Tables Gen.C11.GeomConst.
-From Interval Require Import Tactic.
+From Coq Require Import Lra.
 Import ListNotations.
 Open Scope nat_scope.
 
+(* a finite check over a generated table: evaluated exactly once, by the kernel's vm, at Qed *)
 Ltac finite_forall tab chk :=
   let H := fresh "H" in
-  assert (H : forallb chk tab = true) by (vm_compute; reflexivity);
+  assert (H : forallb chk tab = true) by (vm_cast_no_check (@eq_refl bool true));
   rewrite forallb_forall in H.
 
 (** ** statements *)
@@ -26,7 +27,8 @@ Ltac finite_forall tab chk :=
     closed form of the class, vertex ids are exactly 0 .. n-1 *)
 Definition C11_conformal_stmt : Prop :=
   forall t, In t tab_shapes ->
-    conformal_b (st_blocks t) = true /\ face_connected_b (st_blocks t) = true
+    conformal_b (st_blocks t) = true
+    /\ (forall j, j < length (st_blocks t) -> freachable (st_blocks t) j)
     /\ st_nverts t = expected_vertices (st_kind t)
     /\ vids_below (st_blocks t) (st_nverts t) = true /\ every_vid_used (st_blocks t) (st_nverts t) = true.
 
@@ -122,7 +124,8 @@ Proof.
   intros t Hin. specialize (H _ Hin). unfold tab_conformal in H.
   apply andb_true_iff in H. destruct H as [H H5]. apply andb_true_iff in H. destruct H as [H H4].
   apply andb_true_iff in H. destruct H as [H H3]. apply andb_true_iff in H. destruct H as [H1 H2].
-  apply Nat.eqb_eq in H3. repeat split; assumption.
+  apply Nat.eqb_eq in H3. split; [exact H1|]. split; [exact (face_connected_sound _ H2)|].
+  repeat split; assumption.
 Qed.
 
 Theorem C11_handedness : C11_handedness_stmt.
@@ -199,8 +202,9 @@ Proof. split; [exact disk_jacobian_pos | exact ring_jacobian_pos]. Qed.
 
 Theorem C11_disk_ratios : C11_disk_ratios_stmt.
 Proof.
-  unfold C11_disk_ratios_stmt, disk_ratios_ok, tab_core_ratio, tab_diagonal_ratio, dy.
-  repeat split; interval.
+  apply ratios_ok_sufficient; unfold tab_core_ratio, tab_diagonal_ratio, dy; cbv [powerRZ];
+    repeat match goal with |- context [Pos.to_nat ?p] =>
+      let n := eval vm_compute in (Pos.to_nat p) in change (Pos.to_nat p) with n end; lra.
 Qed.
 
 (** the quad maps about which the geometric theorems are proved are the ones the library uses *)
